@@ -146,8 +146,29 @@ func (e *Exec) builtin(fr *Frame, st *BState, x *ssa.Call, name string, args []S
 		})
 		return res
 	case "copy":
-		e.note("copy: contents not tracked in spike")
-		return e.freshSV(x.Type(), "copy", st.reach, false)
+		// copy(dst, src): the first min(len(dst), len(src)) elements of src overwrite those of dst
+		d, okd := args[0].(*SliceV)
+		sArg, oks := args[1].(*SliceV)
+		if !okd || !oks {
+			e.note("copy from a string: contents not tracked")
+			return e.freshSV(x.Type(), "copy", st.reach, false)
+		}
+		n := ite(le(d.Len, sArg.Len), d.Len, sArg.Len)
+		et := args[0].(*SliceV).Ty.Underlying().(*types.Slice).Elem()
+		build(et, "", func(path, sort string, _ types.Type) *Term {
+			k := heapKey("A", et, path)
+			arr := e.heapArr(st, k, arrSort(SInt, arrSort(SInt, sort)))
+			old := sel(arr, d.Base, arrSort(SInt, sort))
+			src := sel(arr, sArg.Base, arrSort(SInt, sort))
+			na := e.fresh("copied"+path, arrSort(SInt, sort))
+			nbound++
+			p := mk(SInt, fmt.Sprintf("p!q%d", nbound))
+			e.assume(mk(SBool, "forall", mk("binder", "(("+p.Op+" Int))"), eq(sel(na, p, sort),
+				ite(and(le(d.Off, p), lt(p, add(d.Off, n))), sel(src, add(sArg.Off, sub(p, d.Off)), sort), sel(old, p, sort)))))
+			st.heap[k] = sto(arr, d.Base, na)
+			return nil
+		})
+		return &Scalar{T: n, Ty: x.Type()}
 	}
 	e.note("abstracted builtin " + name)
 	if tup, ok := x.Type().(*types.Tuple); ok && tup.Len() == 0 {
@@ -408,6 +429,51 @@ func init() {
 		r := ufun("ext.bytes.Index", []string{SInt, SInt, SInt, SStr}, SInt, d.Base, d.Off, d.Len, sepStr)
 		e.assume(or(eq(r, intLit(-1)), and(le(intLit(0), r), le(add(r, e.strLen(sepStr)), d.Len))))
 		return &Scalar{T: r, Ty: x.Type()}
+	}
+	// sort.Slice(s, less): the elements of s are permuted in place (a bijection on the indices; which one is not
+	// specified here — the order it establishes is a property of `less`, not modelled)
+	externs["sort.Slice"] = func(e *Exec, st *BState, x *ssa.Call, args []SV) SV {
+		iv, ok := args[0].(*IfaceV)
+		var mi *ssa.MakeInterface
+		if ok {
+			mi = madeIface[iv]
+		}
+		if mi == nil {
+			panic("sort.Slice of a value whose slice is not statically known")
+		}
+		sl := e.val(e.curFrame, mi.X).(*SliceV)
+		et := mi.X.Type().Underlying().(*types.Slice).Elem()
+		nfreshGlobal++
+		sig := fmt.Sprintf("sort.perm!%d", nfreshGlobal)
+		tau := fmt.Sprintf("sort.inv!%d", nfreshGlobal)
+		declare(sig, fmt.Sprintf("(declare-fun %s (Int) Int)", sig))
+		declare(tau, fmt.Sprintf("(declare-fun %s (Int) Int)", tau))
+		nbound++
+		j := mk(SInt, fmt.Sprintf("j!q%d", nbound))
+		inR := func(t *Term) *Term { return and(le(intLit(0), t), lt(t, sl.Len)) }
+		sj := mk(SInt, sig, j)
+		tj := mk(SInt, tau, j)
+		e.assume(mk(SBool, "forall", mk("binder", "(("+j.Op+" Int))"), implies(inR(j), and(inR(sj), inR(tj), eq(mk(SInt, sig, tj), j), eq(mk(SInt, tau, sj), j)))))
+		build(et, "", func(path, sort string, _ types.Type) *Term {
+			k := heapKey("A", et, path)
+			arr := e.heapArr(st, k, arrSort(SInt, arrSort(SInt, sort)))
+			old := sel(arr, sl.Base, arrSort(SInt, sort))
+			na := e.fresh("sorted"+path, arrSort(SInt, sort))
+			nbound++
+			q := mk(SInt, fmt.Sprintf("q!q%d", nbound))
+			inRq := and(le(intLit(0), q), lt(q, sl.Len))
+			e.assume(mk(SBool, "forall", mk("binder", "(("+q.Op+" Int))"), eq(sel(na, add(sl.Off, q), sort),
+				ite(inRq, sel(old, add(sl.Off, mk(SInt, sig, q)), sort), sel(old, add(sl.Off, q), sort)))))
+			// ground instances for the first and the last element (the common "append, then sort" shape), so the
+			// solvers need not find them by quantifier instantiation
+			for _, idx := range []*Term{intLit(0), sub(sl.Len, intLit(1))} {
+				ti := mk(SInt, tau, idx)
+				e.assume(implies(inR(idx), and(inR(ti), eq(mk(SInt, sig, ti), idx), eq(sel(na, add(sl.Off, ti), sort), sel(old, add(sl.Off, idx), sort)))))
+			}
+			st.heap[k] = sto(arr, sl.Base, na)
+			return nil
+		})
+		return &TupleV{}
 	}
 	// time model: (ns, aux)
 	tm := func(ns, aux *Term, t types.Type) SV {
